@@ -2,7 +2,8 @@
 
 Full product enumeration of configurations x relative names/bases x short operation histories against the real Filer whose
 class-level directories are redirected into a sandbox under /dev/shm; oracle = recursive snapshot diff of the sandbox around
-every step.
+every step.  Histories use the constructor, reopen (also with a flipped temp flag), close, a direct remake() call, the
+openFiler context manager and FilerDoer.enter/exit.
 """
 import os
 import re
@@ -21,13 +22,30 @@ ASSUMPTIONS = [
     "the process runs as root on tmpfs (/dev/shm): permission-driven fallbacks to AltHeadDirPath never trigger by themselves; the "
     "alternate head is watched (anything created there is reported) but its fallback logic is not exercised",
     "HeadDirPath / AltHeadDirPath / TempHeadDir are redirected through a Filer subclass (class attributes only, no hio code changed); "
-    "'own head directory' = HeadDirPath for persistent instances, the tempfile.mkdtemp directory the instance made for temp instances",
-    "'removes what it created' is read as: after close(clear=True) nothing is left at or below .path and, for temp, none of the "
-    "instance's mkdtemp directories is left; intermediate directories between a persistent head and .path (tail 'hio', base, "
-    "dirname of name) may stay because persistent instances share them - they are only counted (coverage key "
-    "leftover_intermediate_dirs_cases)",
-    "the same clean flag is passed to every reopen of a history (reopen does not remember it); perm/mode/fext stay at their defaults",
+    "'own head directory' = HeadDirPath while the instance is persistent, the tempfile.mkdtemp directories the instance made while it "
+    "is temp; when reopen(temp=..) flips the mode inside a history the region is taken per step from .temp before the step (for what "
+    "the step deletes) and after it (for what it creates or, with clean, deletes); deleting an entry the instance itself created at "
+    "an allowed place is never an escape",
+    "'removes what it created' is read as: after a clearing step (close(clear=True), reopen(clear=True), leaving openFiler with clear "
+    "or .temp, FilerDoer.exit with .temp) nothing is left at or below the path the instance had before the step (unless the reopen "
+    "re-created exactly that path) and, for an instance that was temp, none of its mkdtemp directories is left; intermediate "
+    "directories between a persistent head and .path (tail 'hio', base, dirname of name) may stay because persistent instances share "
+    "them - they are only counted (coverage key leftover_intermediate_dirs_cases)",
+    "'nothing outside its own path': a clearing step deletes only at or below the path held before the step (a clearing reopen also at "
+    "or below the path it makes); an instance that was temp may delete anywhere inside its own mkdtemp directories (hio documents "
+    "removing the trailing directory for temp); the harness plants a foreign file SIBLING next to every path the Filer opens so that "
+    "removing the trailing directory of a shared directory is visible",
+    "title clause 'temp resources are removed': after leaving openFiler / after FilerDoer.exit the resource at .path is gone when .temp "
+    "is true at that moment; a persistent resource deleted there without clear is not an error (inside its own path)",
+    "the same clean flag is passed to every reopen of a history (reopen does not remember it); perm/mode/fext stay at their defaults; "
+    "FilerDoer.enter cannot pass clean, its cases use clean=False",
+    "direct remake() calls are made on an instance built with name='main', base='', reopen=False, with the same temp/clean/filed/"
+    "extensioned values as keyword arguments; a FilerError from remake is a correct answer when the sandbox is unchanged",
     "mkdtemp directory names are random: they are renamed T1, T2.. in order of creation in every observation and message",
+    "snapshots identify a file by (inode, size, mtime_ns, mode) and a directory by its mode instead of reading content: an altered "
+    "sentinel is one whose identity changed; the cases of one job share one sandbox directory: before every case everything the "
+    "previous case left is removed and all pristine entries are compared with the snapshot taken right after building (any "
+    "difference: the sandbox is rebuilt from nothing); replays always build a new sandbox",
 ]
 
 NAMES = ["main", "a/b", "a.b", "x.text", ".hid", "../x", "a/../b", "../../x"]
@@ -41,27 +59,95 @@ SANDBOX_ROOT = ("/dev/shm" if os.path.isdir("/dev/shm") and os.access("/dev/shm"
 S = os.path.join("outer", "S")
 L2 = os.path.join(S, "l1", "l2")
 HEAD, ALT, TMP = os.path.join(L2, "head"), os.path.join(L2, "alt"), os.path.join(L2, "tmp")
+SIB = os.path.join(L2, "sib")                # absolute base / name of the direct remake() calls point here (outside head)
 SENTINEL_DIRS = ["outer", os.path.join("outer", "sib"), S, os.path.join(S, "sib"), os.path.join(S, "l1"),
-                 os.path.join(S, "l1", "sib"), L2, os.path.join(L2, "sib"), ALT, TMP]
+                 os.path.join(S, "l1", "sib"), L2, SIB, ALT, TMP]
 FOREIGN = os.path.join(HEAD, "keep.txt")     # somebody else's file inside the head directory but not in the instance's path
+SIBLING = "SIBLING"                          # somebody else's file planted next to the path the Filer opened
 TEMPRE = re.compile(r"hio_[A-Za-z0-9_]+_test")
+
+ROUND2 = [("reopen", {"reuse": False}), ("close", {"clear": True})]
+# shape id -> short description; ids are stable (they are stored in counterexample cases)
+SHAPE_DOC = {
+    0: "init(reopen=True), close(clear)",
+    1: "init, reopen(reuse), close(clear)",
+    2: "shape 0 + reopen(), close(clear=True)",
+    3: "shape 1 + reopen(), close(clear=True)",
+    10: "new(name='main', base='', reopen=False), remake(name, base) twice",
+    11: "new(..), remake(name, base=<absolute sibling directory>) twice",
+    12: "new(..), remake(name=<absolute sibling directory>/name, base) twice",
+    20: "init, reopen(temp=not temp, clear, reuse), close(clear=True)",
+    21: "shape 20 + reopen(), close(clear=True)",
+    30: "with openFiler(cls, name, base, temp, clear, reuse, clean, filed, extensioned): pass",
+    31: "with openFiler(..) as f: f.reopen(temp=not temp, reuse)",
+    32: "shape 30 + reopen(), close(clear=True)",
+    33: "shape 31 + reopen(), close(clear=True)",
+    40: "new(name, base, temp, reopen=False), FilerDoer(filer).enter(temp=t), .exit()   t = None/True/False from (reuse, clear)",
+    41: "shape 40 + reopen(), close(clear=True)",
+}
+QUICK_SHAPES = (0, 1, 10, 11, 12, 20, 30, 31, 40)
+THOROUGH_SHAPES = (0, 1, 2, 3, 10, 11, 12, 20, 21, 30, 31, 32, 33, 40, 41)
+DOER_TEMP = {(0, 0): None, (0, 1): True, (1, 0): False}
 
 
 def SHAPES(tier):
-    """0: init, close(clear)   1: init, reopen(reuse), close(clear)   +2: ..., reopen(), close(clear=True)"""
-    return (0, 1) if tier == "quick" else (0, 1, 2, 3)
+    return QUICK_SHAPES if tier == "quick" else THOROUGH_SHAPES
+
+
+def valid(flags, shape):
+    """flag combinations that are distinct inputs of a shape"""
+    temp, clean, filed, extensioned, reuse, clear = [int(x) for x in flags]
+    if shape in (10, 11, 12):
+        return not reuse and not clear           # remake takes neither
+    if shape in (40, 41):
+        return (reuse, clear) in DOER_TEMP and not clean
+    return True
+
+
+def plan(flags, shape):
+    temp, clean, filed, extensioned, reuse, clear = [bool(x) for x in flags]
+    if shape in (0, 1, 2, 3):
+        steps = [("init", {})]
+        if shape & 1:
+            steps.append(("reopen", {"reuse": reuse}))
+        steps.append(("close", {"clear": clear}))
+        return steps + (ROUND2 if shape & 2 else [])
+    if shape in (10, 11, 12):
+        return [("new", {"plain": True}), ("remake", {"kind": shape - 10}), ("remake", {"kind": shape - 10})]
+    if shape in (20, 21):
+        steps = [("init", {}), ("reopen", {"temp": not temp, "clear": clear, "reuse": reuse}), ("close", {"clear": True})]
+        return steps + (ROUND2 if shape == 21 else [])
+    if shape in (30, 31, 32, 33):
+        steps = [("openFiler.enter", {})]
+        if shape in (31, 33):
+            steps.append(("reopen", {"temp": not temp, "reuse": reuse}))
+        steps.append(("openFiler.exit", {}))
+        return steps + (ROUND2 if shape in (32, 33) else [])
+    if shape in (40, 41):
+        steps = [("new", {}), ("FilerDoer.enter", {"temp": DOER_TEMP[(int(reuse), int(clear))]}), ("FilerDoer.exit", {})]
+        return steps + (ROUND2 if shape == 41 else [])
+    raise ValueError("unknown shape %r" % (shape,))
 
 
 def RULE(tier):
+    shapes = SHAPES(tier)
     return ("full product: temp x clean x filed x extensioned x reuse x clear in {False,True}^6 x %d names %r x %d bases %r x history "
-            "shapes {init(reopen=True) -> close(clear) ; init -> reopen(reuse) -> close(clear)}%s; every case runs the real Filer in a "
-            "fresh sandbox top/outer/S/l1/l2/{head,alt,tmp} with sentinel files in every ancestor and sibling directory and a foreign "
-            "file inside head; a recursive snapshot before and after every step gives the sets of created and deleted entries: each "
-            "must lie inside head (inside one of the instance's mkdtemp directories when temp); a close(clear=True) deletes only at or "
-            "below .path (temp: inside its mkdtemp directories), leaves nothing at .path and no mkdtemp directory of the instance; "
-            "every sentinel keeps existing with its content. Constructor rejections (FilerError) are counted and only checked for leaving the sandbox unchanged. Cases are "
+            "shapes {%s} (remake shapes only with reuse=clear=False, FilerDoer shapes with clean=False and (reuse, clear) selecting "
+            "enter(temp=None/True/False)); absolute base/name of the remake shapes point at the sentinel directory l2/sib outside head; "
+            "every case runs the real Filer in a "
+            "pristine sandbox top/outer/S/l1/l2/{head,alt,tmp} with sentinel files in every ancestor and sibling directory, a foreign "
+            "file inside head and a foreign file SIBLING planted next to every path the Filer opens; a recursive snapshot before and "
+            "after every step gives the sets of created and deleted entries: each "
+            "must lie inside head while the instance is persistent, inside one of the instance's mkdtemp directories while it is temp "
+            "(a reopen that flips temp may delete in the old region and create in the new one); a step that clears (close(clear=True), "
+            "reopen(clear=True), openFiler exit with clear or .temp, FilerDoer.exit with .temp) deletes only at or "
+            "below the path held before it (temp: inside its mkdtemp directories), leaves nothing at that path and no mkdtemp directory "
+            "of the instance; after openFiler exit / FilerDoer.exit with .temp true the resource at .path is gone; a direct remake() "
+            "either raises FilerError and changes nothing or creates/deletes only inside head (inside a new mkdtemp directory when temp); "
+            "every sentinel keeps existing unaltered. Constructor rejections (FilerError, for FilerDoer raised by enter) are "
+            "counted and only checked for leaving the sandbox unchanged. Cases are "
             "distinct by construction." % (len(NAMES), NAMES, len(BASES), BASES,
-                                           "" if tier == "quick" else " each optionally followed by reopen() -> close(clear=True)"))
+                                           " ; ".join("%d: %s" % (k, SHAPE_DOC[k]) for k in shapes)))
 
 
 def EXHAUSTIVE(tier):
@@ -85,31 +171,70 @@ def build(top):
         f.write("foreign")
 
 
+def fsig(st):
+    """identity of a file: rewriting, replacing, truncating or chmod-ing it changes the value"""
+    return "f:%d:%d:%d:%o" % (st.st_ino, st.st_size, st.st_mtime_ns, st.st_mode & 0o7777)
+
+
 def snapshot(top):
-    """relative path -> 'd' | 'f:<content>' | 'l' for everything below top"""
+    """relative path -> 'd<mode>' | 'f:<inode>:<size>:<mtime_ns>:<mode>' | 'l' for everything below top"""
     snap = {}
-    for dirpath, dirnames, filenames in os.walk(top):
-        rel = os.path.relpath(dirpath, top)
-        for d in dirnames:
-            p = os.path.normpath(os.path.join(rel, d))
-            snap[p] = "l" if os.path.islink(os.path.join(dirpath, d)) else "d"
-        for fn in filenames:
-            p = os.path.normpath(os.path.join(rel, fn))
-            full = os.path.join(dirpath, fn)
-            if os.path.islink(full):
-                snap[p] = "l"
-            else:
-                try:
-                    with open(full, "rb") as f:
-                        snap[p] = "f:" + f.read(64).decode("latin-1")
-                except OSError:
-                    snap[p] = "f:?"
+    stack = [("", top)]
+    while stack:
+        rel, full = stack.pop()
+        with os.scandir(full) as it:
+            for e in it:
+                p = rel + e.name
+                if e.is_symlink():
+                    snap[p] = "l"
+                elif e.is_dir(follow_symlinks=False):
+                    snap[p] = "d%o" % (e.stat(follow_symlinks=False).st_mode & 0o7777)
+                    stack.append((p + os.sep, e.path))
+                else:
+                    try:
+                        snap[p] = fsig(e.stat(follow_symlinks=False))
+                    except OSError:
+                        snap[p] = "f:?"
     return snap
+
+
+PRISTINE = {}       # top directory -> snapshot right after build()
+
+
+def prepare(top):
+    """the sandbox at top in its pristine state -> its snapshot.  A sandbox left by an earlier case of the same job is reused
+    when every pristine entry is still identical (inode, size, mtime, mode): what the earlier case left is removed; else rebuilt."""
+    pristine = PRISTINE.get(top)
+    if pristine is not None and os.path.isdir(top):
+        try:
+            snap = snapshot(top)
+            if all(snap.get(p) == v for p, v in pristine.items()):
+                for p in sorted(snap):
+                    if p not in pristine and (os.path.dirname(p) in pristine or not os.path.dirname(p)):
+                        if snap[p].startswith("d"):
+                            shutil.rmtree(os.path.join(top, p))
+                        else:
+                            os.unlink(os.path.join(top, p))
+                return dict(pristine)
+        except OSError:
+            pass
+    shutil.rmtree(top, ignore_errors=True)
+    build(top)
+    for d in SENTINEL_DIRS:
+        with open(os.path.join(top, d, "SENTINEL")) as f:
+            assert f.read() == "sentinel " + d
+    PRISTINE[top] = snapshot(top)
+    return dict(PRISTINE[top])
 
 
 def inside(path, root):
     """path strictly below root (both relative, normalised)"""
     return path.startswith(root + os.sep)
+
+
+def under(path, root):
+    """path is root or below it"""
+    return root is not None and (path == root or inside(path, root))
 
 
 def region(path):
@@ -131,20 +256,32 @@ def make_class(top):
     return SandboxFiler
 
 
+def modename(t):
+    return "temp" if t else "persistent"
+
+
 # ----------------------------------------------------------------------------------------------------------------------
 
+OPENERS = ("init", "new", "openFiler.enter", "FilerDoer.enter")        # a FilerError here rejects the configuration
+PLANT_AFTER = ("init", "reopen", "openFiler.enter", "FilerDoer.enter", "remake")
+EXITS = {"openFiler.exit": "openFiler", "FilerDoer.exit": "FilerDoer"}
+
+
 def run_case(top, name, base, flags, shape):
-    """one history in a fresh sandbox -> (status, violations, observation, stats)"""
+    """one history in a pristine sandbox -> (status, violations, observation, stats); the caller removes top afterwards"""
     temp, clean, filed, extensioned, reuse, clear = [bool(x) for x in flags]
-    build(top)
+    steps = plan(flags, shape)
+    before = prepare(top)
     cls = make_class(top)
     viols, obs, stats = [], [], {}
     tempnames = {}          # random mkdtemp basename -> T<k>
     mine = set()            # mkdtemp directories made while this instance worked (relative paths)
+    legit = set()           # entries the instance created at an allowed place
     created_total = set()
-    mode = "temp" if temp else "persistent"
-    filer = None
-    sentinels = {os.path.join(d, "SENTINEL"): "f:sentinel " + d for d in SENTINEL_DIRS}
+    filer = cm = doer = None
+    tofree = []
+    remade = None           # path returned by the latest direct remake()
+    sentinels = [os.path.join(d, "SENTINEL") for d in SENTINEL_DIRS]
     conf = "name=%r base=%r %s" % (name, base, " ".join("%s=%s" % (k, v) for k, v in zip(FLAGS, (temp, clean, filed, extensioned, reuse, clear))))
 
     def norm(p):
@@ -153,97 +290,151 @@ def run_case(top, name, base, flags, shape):
     def rel(p):
         return os.path.relpath(p, top) if p else None
 
-    steps = [("init", None)]
-    if shape & 1:
-        steps.append(("reopen", reuse))
-    steps.append(("close", clear))
-    if shape & 2:
-        steps += [("reopen", False), ("close", True)]
+    def in_mode(p, t):
+        if t:
+            return any(under(p, m) for m in mine)
+        return inside(p, HEAD)
 
     try:
-        before = snapshot(top)
         done = []
-        for op, arg in steps:
-            oldpath = rel(filer.path) if filer is not None else None
+        opened_any = False
+        for op, args in steps:
+            if op == "remake":
+                oldpath, tb = remade, temp
+            else:
+                oldpath = rel(filer.path) if filer is not None else None
+                tb = bool(filer.temp) if filer is not None else None
+            label = "%s(%s)" % (op, ", ".join("%s=%s" % (k, v) for k, v in args.items() if k not in ("plain", "kind")))
             err = None
             try:
                 if op == "init":
                     filer = cls(name=name, base=base, temp=temp, reopen=True, clear=clear, reuse=reuse, clean=clean,
                                 filed=filed, extensioned=extensioned)
+                elif op == "new":
+                    if args.get("plain"):
+                        filer = cls(name="main", base="", temp=temp, reopen=False, filed=filed, extensioned=extensioned)
+                    else:
+                        filer = cls(name=name, base=base, temp=temp, reopen=False, filed=filed, extensioned=extensioned)
+                elif op == "remake":
+                    sib = os.path.join(top, SIB)
+                    rname = os.path.join(sib, name) if args["kind"] == 2 else name
+                    rbase = sib if args["kind"] == 1 else base
+                    label = "remake(%s)" % ("name, base", "name, base=<top>/%s" % SIB, "name=<top>/%s/name, base" % SIB)[args["kind"]]
+                    rpath, rfile = filer.remake(name=rname, base=rbase, temp=temp, clean=clean, filed=filed, extensioned=extensioned)
+                    remade = rel(rpath)
+                    if rfile is not None:
+                        tofree.append(rfile)
+                        rfile.close()
                 elif op == "reopen":
-                    filer.reopen(reuse=arg, clean=clean)
+                    filer.reopen(clean=clean, **args)
+                elif op == "close":
+                    filer.close(clear=args["clear"])
+                elif op == "openFiler.enter":
+                    cm = filing.openFiler(cls=cls, name=name, base=base, temp=temp, reopen=True, clear=clear, reuse=reuse, clean=clean,
+                                          filed=filed, extensioned=extensioned)
+                    filer = cm.__enter__()
+                elif op == "openFiler.exit":
+                    cm.__exit__(None, None, None)
+                elif op == "FilerDoer.enter":
+                    doer = filing.FilerDoer(filer=filer)
+                    doer.enter(temp=args["temp"])
+                elif op == "FilerDoer.exit":
+                    doer.exit()
                 else:
-                    filer.close(clear=arg)
+                    raise ValueError(op)
             except hioing.FilerError as ex:
-                if op == "init":        # rejected configuration: not part of the domain; it must not leave anything behind though
+                mode = modename(temp)
+                if op in OPENERS and not opened_any:     # rejected configuration: not part of the domain; it must not leave anything behind though
                     after = snapshot(top)
                     diff = sorted(set(after) ^ set(before))
                     if diff:
-                        viols.append(("rejected-but-changed:%s" % mode, "%s: constructor raised FilerError yet created/deleted %s"
-                                      % (conf, ", ".join(TEMPRE.sub("T1", p) for p in diff[:4]))))
+                        viols.append(("rejected-but-changed:%s" % mode, "%s: %s raised FilerError yet created/deleted %s"
+                                      % (conf, "constructor" if op != "FilerDoer.enter" else op, ", ".join(TEMPRE.sub("T1", p) for p in diff[:4]))))
                     return "rejected", viols, ("rejected", len(diff)), stats
+                if op == "remake":                       # a correct answer as long as nothing happened
+                    after = snapshot(top)
+                    diff = sorted(set(after) ^ set(before))
+                    if diff:
+                        viols.append(("rejected-but-changed:remake:%s" % mode, "%s, step %s after %s: raised FilerError yet created/deleted %s"
+                                      % (conf, label, "+".join(done) or "nothing", ", ".join(TEMPRE.sub("T1", p) for p in diff[:4]))))
+                    stats["remake_rejected"] = stats.get("remake_rejected", 0) + 1
+                    obs.append((label, "FilerError", len(diff)))
+                    return "ran", viols, tuple(obs), stats
                 err = ex
             except Exception as ex:   # the statement is about where the Filer works, not about raising: recorded, still diffed
                 err = ex
             done.append(op)
+            if op not in ("new",):
+                opened_any = True
             after = snapshot(top)
             created = sorted(p for p in after if p not in before)
             deleted = sorted(p for p in before if p not in after)
             changed = sorted(p for p in after if p in before and after[p] != before[p])
             # label new mkdtemp directories
+            fresh = set()
             for p in created:
-                if os.path.dirname(p) == TMP and TEMPRE.fullmatch(os.path.basename(p)) and after[p] == "d":
+                if os.path.dirname(p) == TMP and TEMPRE.fullmatch(os.path.basename(p)) and after[p].startswith("d"):
                     tempnames.setdefault(os.path.basename(p), "T%d" % (len(tempnames) + 1))
                     mine.add(p)
+                    fresh.add(p)
             created_total.update(created)
-            newpath = rel(filer.path) if filer is not None else None
-            step = "%s after %s" % ("%s(%s)" % (op, "" if arg is None else ("reuse=%s" % arg if op == "reopen" else "clear=%s" % arg)),
-                                    "+".join(done[:-1]) or "nothing")
+            if op == "remake":
+                newpath, ta = remade, temp
+            else:
+                newpath = rel(filer.path) if filer is not None else None
+                ta = bool(filer.temp) if filer is not None else bool(temp)
+            if tb is None:
+                tb = ta
+            step = "%s after %s" % (label, "+".join(done[:-1]) or "nothing")
             where = "%s, step %s, path %s" % (conf, step, norm(newpath or "None"))
             if err is not None:
                 stats["raised_" + type(err).__name__] = stats.get("raised_" + type(err).__name__, 0) + 1
 
             # -- clause 1: everything created or deleted lies inside the own head directory / the own temp directory
-            def allowed(p):
-                if temp:
-                    return any(p == t or inside(p, t) for t in mine)
-                return inside(p, HEAD)
-            for what, entries in (("create", created), ("delete", deleted)):
-                bad = [p for p in entries if not allowed(p)]
+            badc = [p for p in created if not in_mode(p, ta)]
+            badd = [p for p in deleted if not (in_mode(p, tb) or in_mode(p, ta) or p in legit)]
+            for what, bad, t in (("create", badc, ta), ("delete", badd, tb)):
                 if bad:
                     # one key per event: classified by its shallowest entry (an rmtree of a big directory is one event)
                     topmost = min(bad, key=lambda p: (p.count(os.sep), p))
-                    viols.append(("escape:%s:%s:%s" % (what, mode, region(topmost)),
-                                  "%s: %sd outside its own %s: %s" % (where, what, "mkdtemp directory" if temp else "head directory",
+                    viols.append(("escape:%s:%s:%s" % (what, modename(t), region(topmost)),
+                                  "%s: %sd outside its own %s: %s" % (where, what, "mkdtemp directory" if t else "head directory",
                                                                        ", ".join(norm(p) for p in bad[:4]) + (" .. %d entries" % len(bad) if len(bad) > 4 else ""))))
+            legit.update(p for p in created if in_mode(p, ta))
             # -- sentinels
-            lost = sorted(p for p, v in sentinels.items() if before.get(p) == v and after.get(p) != v)
+            lost = sorted(p for p in sentinels if p in before and after.get(p) != before[p])
             if lost:
-                viols.append(("sentinel-destroyed:%s:%s" % (op, mode), "%s: sentinel files gone or altered: %s" % (where, ", ".join(lost[:4]))))
+                viols.append(("sentinel-destroyed:%s:%s" % (op, modename(tb)), "%s: sentinel files gone or altered: %s" % (where, ", ".join(lost[:4]))))
             if changed and not lost:
                 foreign = [p for p in changed if not (inside(p, HEAD) or any(inside(p, t) for t in mine))]
                 if foreign:
-                    viols.append(("foreign-altered:%s:%s" % (op, mode), "%s: entries altered: %s" % (where, ", ".join(norm(p) for p in foreign[:4]))))
-            # -- clause 2: close with clear
-            if op == "close" and arg:
+                    viols.append(("foreign-altered:%s:%s" % (op, modename(tb)), "%s: entries altered: %s" % (where, ", ".join(norm(p) for p in foreign[:4]))))
+            # -- clause 2: steps that clear
+            clears = ((op == "close" and args["clear"]) or (op == "reopen" and args.get("clear"))
+                      or (op == "openFiler.exit" and (tb or clear)) or (op == "FilerDoer.exit" and tb))
+            if clears:
                 own = oldpath
-                if temp:
-                    outside = [p for p in deleted if not (any(p == t or inside(p, t) for t in mine)
-                                                          or (own is not None and (p == own or inside(p, own))))]
-                else:
-                    outside = [p for p in deleted if own is None or not (p == own or inside(p, own))]
+                outside = [p for p in deleted if not (under(p, own) or (op == "reopen" and under(p, newpath))
+                                                      or (tb and any(under(p, t) for t in mine)))]
                 if outside:
-                    viols.append(("clear-deletes-outside-own-path:%s:%s" % (mode, "filed" if filed else "dir"),
-                                  "%s: close(clear=True) with own path %s deleted %s" % (where, norm(own or "None"), ", ".join(norm(p) for p in outside[:4]))))
-                if own is not None and any(p == own or inside(p, own) for p in after):
-                    viols.append(("clear-leaves:path:%s" % mode, "%s: close(clear=True) left %s" % (where, norm(own))))
-                if temp:
-                    left = sorted((t for t in mine if t in after), key=lambda t: int(tempnames[os.path.basename(t)][1:]))
+                    viols.append(("clear-deletes-outside-own-path:%s:%s" % (modename(tb), "filed" if filed else "dir"),
+                                  "%s: %s with own path %s deleted %s" % (where, label, norm(own or "None"), ", ".join(norm(p) for p in outside[:4]))))
+                if own is not None and any(under(p, own) for p in after):
+                    if op == "reopen" and err is None and newpath == own:
+                        pass            # the reopen made exactly the same path again
+                    elif op in EXITS and tb:
+                        viols.append(("temp-left-behind:%s" % EXITS[op], "%s: .temp is True after %s yet the temp resource %s is still there"
+                                      % (where, label, norm(own))))
+                    else:
+                        viols.append(("clear-leaves:path:%s" % modename(tb), "%s: %s left %s" % (where, label, norm(own))))
+                if tb:
+                    live = fresh if (op == "reopen" and ta) else set()      # the directory of the resource this reopen just opened
+                    left = sorted((t for t in mine if t in after and t not in live), key=lambda t: int(tempnames[os.path.basename(t)][1:]))
                     latest = "T%d" % len(tempnames)
                     for t in left:
                         if tempnames[os.path.basename(t)] == latest:
-                            viols.append(("clear-leaves:temp-root", "%s: close(clear=True) left the instance's mkdtemp directory %s holding %s"
-                                          % (where, norm(t), [norm(p) for p in sorted(after) if inside(p, t)][:4])))
+                            viols.append(("clear-leaves:temp-root", "%s: %s left the instance's mkdtemp directory %s holding %s"
+                                          % (where, label, norm(t), [norm(p) for p in sorted(after) if inside(p, t)][:4])))
                         else:
                             viols.append(("clear-leaves:earlier-temp-root", "%s: the mkdtemp directory %s of an earlier (re)open of the same "
                                           "instance is still there" % (where, norm(t))))
@@ -252,9 +443,17 @@ def run_case(top, name, base, flags, shape):
                     if rest:
                         stats["leftover_intermediate_dirs_cases"] = 1
                         if STRICT_INTERMEDIATE:
-                            viols.append(("clear-leaves:intermediate:persistent", "%s: close(clear=True) left %s" % (where, ", ".join(rest[:4]))))
-            obs.append((op, arg, tuple(norm(p) for p in created), tuple(norm(p) for p in deleted),
+                            viols.append(("clear-leaves:intermediate:persistent", "%s: %s left %s" % (where, label, ", ".join(rest[:4]))))
+            obs.append((label, tuple(norm(p) for p in created), tuple(norm(p) for p in deleted),
                         type(err).__name__ if err is not None else None))
+            # -- somebody else's file next to the path just opened (not attributed to the Filer: added to the snapshot by hand)
+            if err is None and op in PLANT_AFTER and newpath is not None:
+                d = os.path.dirname(newpath)
+                sp = os.path.join(d, SIBLING)
+                if under(d, "outer") and after.get(d, "").startswith("d") and sp not in after and sp != newpath:
+                    with open(os.path.join(top, sp), "w") as f:
+                        f.write("sibling")
+                    after[sp] = fsig(os.lstat(os.path.join(top, sp)))
             before = after
             if err is not None:
                 break
@@ -263,36 +462,37 @@ def run_case(top, name, base, flags, shape):
         try:
             if filer is not None and getattr(filer, "file", None):
                 filer.file.close()
+            for f in tofree:
+                f.close()
         except Exception:
             pass
-        shutil.rmtree(top, ignore_errors=True)
 
 
 def cases(tier):
     for bits in range(64):
         flags = [(bits >> (5 - i)) & 1 for i in range(6)]
         for shape in SHAPES(tier):
-            yield flags + [shape]
+            if valid(flags, shape):
+                yield flags + [shape]
 
 
 def run_job(job, tier, seed):
     _, ni, bi = job
     acc = Acc(job)
     root = SANDBOX_ROOT % os.getpid()
-    n = 0
+    top = os.path.join(root, "j%d_%d" % (ni, bi))
     try:
         os.makedirs(root, exist_ok=True)
         for case in cases(tier):
-            n += 1
-            top = os.path.join(root, "j%d_%d_c%d" % (ni, bi, n))
             status, viols, obs, stats = run_case(top, NAMES[ni], BASES[bi], case[:6], case[6])
             acc.case(case, obs, (), sample=dict(name=NAMES[ni], base=BASES[bi], flags=dict(zip(FLAGS, case[:6])), shape=case[6],
                                                    steps=[list(map(str, o)) for o in obs][:5] if status == "ran" else obs))
             for key, msg in viols:      # smallest counterexample = plainest name/base, fewest flags set, shortest history
-                acc.r.add_violation(key, msg, job, case, ni + bi + sum(case[:6]) + case[6])
+                acc.r.add_violation(key, msg, job, case, ni + bi + sum(case[:6]) + THOROUGH_SHAPES.index(case[6]))
             acc.extra(**{"constructor_rejected" if status == "rejected" else "cases_run": 1})
             acc.extra(**stats)
     finally:
+        PRISTINE.pop(top, None)
         shutil.rmtree(root, ignore_errors=True)
     return acc.result()
 
@@ -300,8 +500,11 @@ def run_job(job, tier, seed):
 def replay(job, case):
     ni, bi = int(job[1]), int(job[2])
     root = SANDBOX_ROOT % os.getpid() + "_replay"
+    top = os.path.join(root, "c")
     try:
+        PRISTINE.pop(top, None)         # always a newly built sandbox
         os.makedirs(root, exist_ok=True)
-        return run_case(os.path.join(root, "c"), NAMES[ni], BASES[bi], [int(x) for x in case[:6]], int(case[6]))[1]
+        return run_case(top, NAMES[ni], BASES[bi], [int(x) for x in case[:6]], int(case[6]))[1]
     finally:
+        PRISTINE.pop(top, None)
         shutil.rmtree(root, ignore_errors=True)
